@@ -42,6 +42,7 @@ Direct oracles (property evaluated on the real code, numpy only) classify every 
 from __future__ import annotations
 
 import copy
+from fractions import Fraction
 import glob
 import itertools
 import json
@@ -2111,6 +2112,139 @@ def describe_rebuild(obj):
         return None
 
 
+# ---- MIXED histories (Model/C11Mixed.lean, driver op `mchain`): the model runs the WHOLE history - simplify, decompose_perms and
+# the regrouping included - on the flattened view of the object as built; nothing the real code returned is read back.
+MCHAIN_NAMES = {"copy": ["copy"], "pcopy": ["copy"], "flatten": ["flat"], "regroup": ["regroup"]}
+MCHAIN_REBUILD = ("simplify", "decompose", "regroup")
+MCHAIN_PAIRS = [(a, b) for a, b in CHAIN_PAIRS if a in MCHAIN_REBUILD or b in MCHAIN_REBUILD]
+TWO_PI = 2 * math.pi
+
+
+def flat_view(obj):
+    """the list `for r, c in obj` iterates, with the class of every component: [(entry, component)]"""
+    from perceval.components import PS, PERM
+    if container_parts(obj) is not None:
+        comps = [(tuple(int(i) for i in r), c) for r, c in obj]
+    else:
+        comps = [(tuple(range(obj.m)), obj)]
+    out = []
+    for r, c in comps:
+        e = {"r0": r[0], "w": len(r)}
+        if isinstance(c, PERM):
+            e.update(k="perm", perm=[int(x) for x in c.perm_vector])
+        elif isinstance(c, PS) and not c.param("phi").is_variable:
+            e.update(k="ps", phi=float(c.param("phi")))
+        elif isinstance(c, PS):
+            e["k"] = "psvar"
+        else:
+            e["k"] = "leaf"
+        out.append((e, c))
+    return out
+
+
+def mixed_state(view, byobj):
+    st = []
+    for e, c in view:
+        if e["k"] == "perm":
+            st.append({"r0": e["r0"], "perm": e["perm"]})
+        elif e["k"] == "ps":
+            st.append({"r0": e["r0"], "phi": core.rat(e["phi"]), "z": gens.leaf_matrix_json(c)[0][0]})
+        else:
+            spec = byobj.get(id(c))
+            if spec is not None and spec["t"] in ("BS", "Barrier"):
+                st.append({"r0": e["r0"], "leaf": lean_leaf(spec)})
+            else:
+                st.append({"r0": e["r0"], "leaf": {"un": c.m, "U": gens.leaf_matrix_json(c)}})
+    return st
+
+
+def mixed_step(st, drop_all):
+    k = st["k"]
+    if k.startswith("inv-"):
+        return ["inv", "v" in k[4:], "h" in k[4:]]
+    if k == "simplify":
+        return ["simp", bool(st["display"]), bool(drop_all)]
+    if k == "decompose":
+        return ["decomp", bool(st["merge"])]
+    return MCHAIN_NAMES[k]
+
+
+def phase_close(a, b):
+    d = (a - b) % TWO_PI
+    return min(d, TWO_PI - d) <= 1e-9
+
+
+def view_diff(model, real):
+    """None when the model's list is the real one; otherwise (text, only phase shifters differ)"""
+    def same(a, b):
+        if (a["r0"], a["w"], a["k"]) != (b["r0"], b["w"], b["k"]):
+            return False
+        if a["k"] == "perm":
+            return list(a["perm"]) == list(b["perm"])
+        if a["k"] == "ps":
+            return phase_close(float(Fraction(a["phi"])), b["phi"])
+        return True
+    if len(model) == len(real) and all(same(a, b) for a, b in zip(model, real)):
+        return None
+    def brief(l):
+        return [(e["k"], e["r0"], e["w"]) + ((tuple(e["perm"]),) if e["k"] == "perm" else ()) for e in l]
+    nops = lambda l: [e for e in l if e["k"] != "ps"]
+    only_ps = len(nops(model)) == len(nops(real)) and all(same(a, b) for a, b in zip(nops(model), nops(real)))
+    return f"model {brief(model)}, code {brief(real)}"[:400], only_ps
+
+
+def judge_mixed(chk, case, state0, steps, views, mats, history, count):
+    """compare the model's mixed history with what the real steps left (views / mats: per step)"""
+    rp = {"case": case}
+    m = mats[0].shape[0]
+    flags = [True] * len(steps)
+    ambiguous_at = None
+    for _ in range(len(steps) + 1):
+        rep = chk.lean.ask({"op": "mchain", "m": m, "state": state0,
+                            "steps": [mixed_step(st, f) for st, f in zip(steps, flags)]})
+        if "err" in rep:
+            return ("broken", "mchain-model-error", rep["err"], rp)
+        trace = rep["trace"]
+        bad = None
+        for i in range(len(steps) + 1):
+            real = [e for e, _ in views[i]]
+            d = view_diff(trace[i]["state"], real)
+            if d is not None:
+                bad = (i, d)
+                break
+            if not close_np(np.array(core.unmat(trace[i]["U"]), dtype=complex), mats[i]):
+                return ("broken", "mchain-matrix-model-vs-code", f"history [{history(i)}]: the component list is the "
+                        f"model's, the matrix is not (the law of every step holds on the real objects)", rp)
+        if bad is None:
+            break
+        i, (txt, only_ps) = bad
+        if i >= 1 and steps[i - 1]["k"] == "simplify" and flags[i - 1]:
+            flags[i - 1] = False        # the drop tests of this simplify: rounding decided to keep
+            continue
+        if i >= 1 and steps[i - 1]["k"] == "simplify" and only_ps and not steps[i - 1]["display"]:
+            # two drop tests of one simplify decided differently by floating-point rounding (both outcomes are allowed
+            # by the specification: simplify_sound takes the outcomes as an input) - the rest is not compared
+            ambiguous_at = i
+            break
+        return ("broken", "mchain-list-model-vs-code", f"history [{history(i)}] run by the model without reading "
+                f"anything back: {txt}", rp)
+    if count:
+        upto = len(steps) if ambiguous_at is None else ambiguous_at - 1
+        names = [s["k"] for s in steps[:upto]]
+        if ambiguous_at is not None:
+            chk.branch("mchain-drop-outcomes-mixed")
+        else:
+            chk.branch("mchain-whole-history")
+        if not all(flags):
+            chk.branch("mchain-drop-test-rounded-to-keep")
+        for a, c in zip(names, names[1:]):
+            if a in MCHAIN_REBUILD or c in MCHAIN_REBUILD:
+                chk.branch(f"mchain-{a}->{c}")
+        if sum(1 for n in names if n in MCHAIN_REBUILD) >= 2 and any(n.startswith("inv-") for n in names):
+            chk.branch("mchain-two-rebuilds-and-inverse")
+    return None
+
+
 def judge_chain_(chk, case, count=True):
     from perceval.components import BS, PS, PERM
     from perceval.components.unitary_components import Barrier
@@ -2123,6 +2257,9 @@ def judge_chain_(chk, case, count=True):
     tree, seg = b.lean(top), []
     u_prev = np_u(obj)
     done = []
+    byobj = {id(o): b.specs[nid]["leaf"] for nid, o in b.objs.items() if "leaf" in b.specs[nid]}
+    views, mats = [flat_view(obj)], [u_prev]
+    state0 = mixed_state(views[0], byobj)
 
     def history(k):
         return " ; ".join(s["k"] + ("(display)" if s.get("display") else "") + ("(merge)" if s.get("merge") else "")
@@ -2175,6 +2312,13 @@ def judge_chain_(chk, case, count=True):
             tree, seg = new_tree, []
         u_prev = u_new
         done.append(k)
+        views.append(flat_view(obj))
+        mats.append(u_new)
+    # ---- the mixed history of the model (no read-back) against what every step left
+    if all(e["k"] != "psvar" for v in views for e, _ in v):
+        res = judge_mixed(chk, case, state0, steps, views, mats, history, count)
+        if res is not None:
+            return res
     # ---- what the last step left: every component on its own can be copied (its second view is in step)
     for leaf in leaves_of(obj):
         if not hasattr(leaf, "compute_unitary"):
@@ -2408,6 +2552,8 @@ def run(chk: core.Check):
         # histories on one object: every ordered pair of transformations
         *[f"chain-{a}->{b}" for a, b in CHAIN_PAIRS], "chain-three-or-more-steps", "chain-bs-four-unequal-phases",
         "chain-shared-object", "chain-lone-component", "chain-nested-offset", "chain-describe-rebuilt",
+        # the same histories run by the model as ONE mixed history (driver op mchain, nothing read back)
+        *[f"mchain-{a}->{b}" for a, b in MCHAIN_PAIRS], "mchain-whole-history", "mchain-two-rebuilds-and-inverse",
     ]
     chk.lean = core.LeanDriver("C11")
     rng = chk.rng
